@@ -320,8 +320,7 @@ func Run(cfg Config, root func()) *Exec {
 		if t.state == stDone {
 			continue
 		}
-		t.sendGrant(grant{kill: true})
-		if !s.waitEventTimeout(2 * time.Second) {
+		if !t.sendKill() || !s.waitEventTimeout(2*time.Second) {
 			s.exec.Leaked++
 		}
 	}
